@@ -236,6 +236,15 @@ impl World {
         crate::monitors::pre_txn(self, to);
         crate::monitors::twin_feed(self, to, bytes, v2, false, false)?;
         let doc = self.reps[to].doc.clone();
+        if std::env::var("YMON_DUMP").is_ok() {
+            let txn = doc.transact();
+            eprintln!("=== store of r{} before applying {}: {:?}", self.reps[to].cfg.id, what, u);
+            let mut bl = yrs::verif::store_blocks(&txn);
+            bl.sort_by_key(|b| (b.id.client, b.id.clock));
+            for b in &bl {
+                eprintln!("   {}:{}+{} k{} c{} del{} keep{} o{:?} r{:?} p{:?} sub{:?} {}", b.id.client, b.id.clock, b.len, b.kind, b.content, b.deleted, b.keep, b.origin.map(|i| (i.client.get(), i.clock)), b.right_origin.map(|i| (i.client.get(), i.clock)), b.parent, b.parent_sub, b.text);
+            }
+        }
         let res = catch(move || doc.transact_mut().apply_update(u));
         match res {
             Err(p) => return self.v(self.mon.prop, &format!("panic:{}", p.split(' ').next().unwrap_or("")), format!("panic while applying {}: {}", what, p)),
